@@ -106,8 +106,80 @@ pub fn run(ctx: &Ctx) -> CheckResult {
             env_cases.push(mk("extra-positional", &|c| c.steps[0].argv.push("stray".into())));
             env_cases.push(mk("debug-info-dir-missing", &|c| c.steps[0].argv.extend(["--output-debug-info".to_string(), "no/dir/d.json".to_string()])));
             env_cases.push(mk("no-builtin-mapfiles", &|c| c.steps[0].argv.push("--no-builtin-mapfiles".into())));
+            // gamemaps whose target leads back to a gamemap (itself, a two-file cycle, a link back), is
+            // missing, or is a directory
+            let game_num = |c: &Case| -> String { arg_pos(c, "-g").map(|p| c.steps[0].argv[p + 1].trim_start_matches("th").trim_start_matches('0').to_string()).unwrap_or_default() };
+            let gm = |c: &Case, target: &str| format!("!gamemap\n!game_files\n{} {}\n", game_num(c), target);
+            env_cases.push(mk("gamemap-names-itself", &|c| {
+                let t = gm(c, "loop.map");
+                c.inputs.push(crate::case::Input::text("loop.map", &t));
+                c.steps[0].argv.extend(["-m".to_string(), "loop.map".to_string()]);
+            }));
+            env_cases.push(mk("gamemap-two-file-cycle", &|c| {
+                let (a, b) = (gm(c, "gm-b.map"), gm(c, "gm-a.map"));
+                c.inputs.push(crate::case::Input::text("gm-a.map", &a));
+                c.inputs.push(crate::case::Input::text("gm-b.map", &b));
+                c.steps[0].argv.extend(["-m".to_string(), "gm-a.map".to_string()]);
+            }));
+            env_cases.push(mk("gamemap-target-links-back", &|c| {
+                let t = gm(c, "target.map");
+                c.inputs.push(crate::case::Input::text("gm.map", &t));
+                c.inputs.push(crate::case::Input::symlink("target.map", "gm.map"));
+                c.steps[0].argv.extend(["-m".to_string(), "gm.map".to_string()]);
+            }));
+            env_cases.push(mk("gamemap-target-links-back-via-pragma", &|c| {
+                let t = gm(c, "target.map");
+                c.inputs.push(crate::case::Input::text("gm.map", &t));
+                c.inputs.push(crate::case::Input::symlink("target.map", "gm.map"));
+                for i in c.inputs.iter_mut() {
+                    if i.path == scen::SRC {
+                        if let Base::Text(t) = &i.base {
+                            i.base = Base::Text(format!("#pragma mapfile \"gm.map\"\n{}", t));
+                        }
+                    }
+                }
+            }));
+            env_cases.push(mk("gamemap-target-missing", &|c| {
+                let t = gm(c, "nowhere.map");
+                c.inputs.push(crate::case::Input::text("gm.map", &t));
+                c.steps[0].argv.extend(["-m".to_string(), "gm.map".to_string()]);
+            }));
+            env_cases.push(mk("gamemap-target-is-directory", &|c| {
+                let t = gm(c, "map");
+                c.inputs.push(crate::case::Input::text("gm.map", &t));
+                c.steps[0].argv.extend(["-m".to_string(), "gm.map".to_string()]);
+            }));
             env_cases.push(mk("image-source-missing", &|c| c.steps[0].argv.extend(["-i".to_string(), "no-such-source".to_string()])));
         }
+    }
+    // how the mapfile arrives is a configuration dimension of its own: every scenario that passes
+    // mapfiles with -m also runs with the same files named by `#pragma mapfile` lines instead
+    // (pragma mapfiles are loaded later than -m ones, after the script has been read)
+    for base in bases.iter() {
+        let argv = &base.steps[0].argv;
+        let ms: Vec<String> = argv.iter().enumerate().filter(|(k, a)| *k > 0 && argv[*k - 1] == "-m" && a.starts_with("mapfile-")).map(|(_, a)| a.clone()).collect();
+        if ms.is_empty() {
+            continue;
+        }
+        let mut c = base.clone();
+        c.name = format!("{} [config:mapfiles-via-pragma]", base.name);
+        let mut k = 0;
+        while k < c.steps[0].argv.len() {
+            if c.steps[0].argv[k] == "-m" && c.steps[0].argv.get(k + 1).map_or(false, |a| a.starts_with("mapfile-")) {
+                c.steps[0].argv.drain(k..k + 2);
+            } else {
+                k += 1;
+            }
+        }
+        let pragmas: String = ms.iter().map(|m| format!("#pragma mapfile \"{}\"\n", m)).collect();
+        for i in c.inputs.iter_mut() {
+            if i.path == scen::SRC {
+                if let Base::Text(t) = &i.base {
+                    i.base = Base::Text(format!("{}{}", pragmas, t));
+                }
+            }
+        }
+        env_cases.push(c);
     }
     let (_r, st_env, f_env, h_env) = par_map(ctx, &env_cases, |w, _, c| w.judge(c));
     // fault-free baseline of everything (O-term / O-diag on the pristine corpus, incl. compile-fail snippets)
@@ -122,9 +194,13 @@ pub fn run(ctx: &Ctx) -> CheckResult {
     let n_items = if quick { 56 } else { bases.len() };
     let mut order: Vec<usize> = (0..bases.len()).collect();
     Rng::new(rng::mix(ctx.seed, "c04-items", 0)).shuffle(&mut order);
-    // competition / extra items first, then the shuffled rest
-    order.sort_by_key(|&i| if bases[i].name.contains("extra/") { 0 } else { 1 });
-    order.truncate(n_items);
+    // half hand-written (competition / feature) items, half harvested + generated ones, both shuffled by seed
+    if n_items < order.len() {
+        let extras: Vec<usize> = order.iter().copied().filter(|&i| bases[i].name.contains("extra/")).take(n_items / 2).collect();
+        let rest: Vec<usize> = order.iter().copied().filter(|&i| !bases[i].name.contains("extra/")).take(n_items - extras.len()).collect();
+        order = extras;
+        order.extend(rest);
+    }
     order.sort();
     let per_file = if quick { 85 } else { 600 };
     let mut work: Vec<(usize, usize, Vec<Corruption>)> = vec![];
